@@ -412,6 +412,14 @@ func (c *Core) setupExpiration(e ExpireLeaseStrategy, standby bool) error {
 	c.logger.Info("restoring leases")
 	errorFunc := func() {
 		c.logger.Error("shutting down")
+		// The restore runs in the background: it can fail while the unseal
+		// (or the promotion to active) that started it still holds the state
+		// lock and has not yet marked the core as unsealed. Shutdown would
+		// then find the core "already sealed" and do nothing, and the node
+		// would go on to serve requests without tracking the stored leases.
+		// Wait for that operation to finish first.
+		c.stateLock.RLock()
+		c.stateLock.RUnlock() //nolint:staticcheck // empty critical section is intended
 		if err := c.Shutdown(); err != nil {
 			c.logger.Error("error shutting down core", "error", err)
 		}
